@@ -51,6 +51,10 @@ func runC06(c *Check) {
 	c06Status(c)
 	c06Panics(c)
 	c06CloseAndCascade(c)
+	// the getters' guarantee rests on the shwap verifiers' completeness gates (C02 R2.1/R2.2) and on the atomic bitswap registry (C10 R10.2)
+	c.Rule("R6.7", "contracts the getters rest on: namespace-data completeness gates and the bitswap unmarshal registry")
+	importRules(c, "R6.7", "C02 R2.1/R2.2 completeness gates", runC02, pickRule("R2.1", "R2.2"), func(s *Check) int { return s.evals })
+	importRules(c, "R6.7", "C10 R10.2 registry atomicity", runC10, pickRule("R10.2"), func(s *Check) int { return s.evals })
 }
 
 func c06Escape(c *Check) {
